@@ -28,7 +28,7 @@ from fractions import Fraction
 import numpy as np
 from common import *
 
-IMPORTS = ("From CV Require Import Base.Cmp Base.QcLin Model.C06_RTO Model.C06_FD.\n"
+IMPORTS = ("From CV Require Import Base.Cmp Base.QcLin Model.C06_RTO Model.C06_FD Model.C06_GMRFop.\n"
            "From Coq Require Import QArith Qcanon.")
 RULE = ("configurations = interface (experimental, legacy) x target (Posterior, MultipleLikelihoodPosterior with 2-3 likelihoods, "
         "legacy 5-tuple) x model (matrix, function pair) x noise and prior Gaussian in all 4x4 input forms (cov/prec/sqrtcov/sqrtprec "
@@ -511,7 +511,9 @@ def mk_model(cuqi, A, mkind, m, n, decl="dense"):
 def mk_prior(cuqi, spec):
     p, n = spec["prior"], spec["n"]
     if p["kind"] == "gaussian":
-        mean = float(p["mean"][0]) if p.get("scalar_mean") else decl_vec(p["mean"], spec.get("decl", "dense"))
+        # (a user who builds the prior in float32 / integers does so for mean and covariance alike)
+        mdecl = p["g"].get("decl") if p["g"].get("decl") in ("f32", "int") else spec.get("decl", "dense")
+        mean = float(p["mean"][0]) if p.get("scalar_mean") else decl_vec(p["mean"], mdecl)
         return cuqi.distribution.Gaussian(mean, geometry=n, name="x", **gauss_kwargs(p["g"]))
     if p["kind"] == "gmrf":
         mean = float(p["mean"][0]) if p.get("scalar_mean") else np.array(p["mean"], dtype=float)
@@ -646,6 +648,7 @@ def make_sampler(cuqi, spec, target, xcur):
                 kw["rng"] = ScriptRng()
             s = cuqi.sampler.UGLA(target, x0=x0, maxit=MAXIT, tol=TOL, beta=spec["beta"], callback=cb, **kw)
     s._verif_cb = cb
+    s._verif_default_state = x0 is None
     return s
 
 
@@ -665,9 +668,12 @@ def one_draw(cuqi, spec, sampler, xcur, e, cap):
     rng = getattr(sampler, "rng", None)
     if isinstance(rng, ScriptRng):
         rng.e, rng.log = list(e), []
+    own_default = getattr(sampler, "_verif_default_state", False)      # first transition of a sampler built WITHOUT x0:
+    sampler._verif_default_state = False                               # it must start from the documented default (zeros)
     with ScriptedRandom(script=scripted(e)) as sr, quiet():
         if spec["iface"] == "exp":
-            sampler.current_point = xcur
+            if not own_default:
+                sampler.current_point = xcur
             if entry == "step":
                 sampler.step()
             elif entry == "sample":
@@ -680,7 +686,8 @@ def one_draw(cuqi, spec, sampler, xcur, e, cap):
                 assert np.array_equal(stored, x), "the stored sample is not the state after the transition"
                 assert cb is None or (len(cb.calls) == ncb + 1 and np.array_equal(cb.calls[-1][0], x)), "callback did not receive the new sample"
         else:
-            sampler.x0 = xcur
+            if not own_default:
+                sampler.x0 = xcur
             if entry == "burnin":
                 S = sampler.sample(1, 1)
                 x = np.array(S if not hasattr(S, "samples") else S.samples[:, -1], dtype=float).ravel()
@@ -758,6 +765,9 @@ def observe(cuqi, spec, target=None, sampler=None):
             obs["M_adj"] = [np.array(Mop(np.array(basis(p, i)), 2), dtype=float).tolist() for i in range(p)]
             obs["L2"] = dense(sampler._L2).tolist()
         c = pert_scale(obs["b_tild"])
+        # (from a state 2^23 times larger than the draw the solver's accuracy, relative to that state, is ~1e-3 of the posterior
+        #  std: the whitened perturbation -- unit-free -- is taken 2^14 times larger so that the read-off stays accurate)
+        c = max(c, 2.0 ** 14 if spec.get("xk_class") == "huge" else 1.0)
         obs["c"] = c
         estar = [c * v for v in spec["estar"]] if spec.get("estar") else None
         estar2 = [c * v for v in spec["estar2"]] if spec.get("estar2") else None
@@ -868,7 +878,8 @@ def oracle_check(spec, obs):
     cov = np.array([[float(v) for v in row] for row in cov_f])
     # natural scale of the unknown: max(|posterior mean|, largest posterior standard deviation) -- both exact
     sc = max(np.max(np.abs(mean)), math.sqrt(max(float(cov_f[i][i]) for i in range(len(cov_f)))))
-    if not np.all(np.isfinite(x0)) or np.max(np.abs(x0 - mean)) > 1e-6 * sc:
+    huge = 1e-8 * max(abs(v) for v in spec["xcurs"][0]) if spec.get("xk_class") == "huge" else 0.0      # solver accuracy from a huge state
+    if not np.all(np.isfinite(x0)) or np.max(np.abs(x0 - mean)) > 1e-6 * sc + huge:
         return "mean", "offset x(e=0) = %s but the posterior mean is %s (max diff %.3g, scale %.3g)" % (x0.tolist(), mean.tolist(), np.max(np.abs(x0 - mean)), sc)
     GG = G @ G.T
     if not np.all(np.isfinite(GG)) or np.max(np.abs(GG - cov)) > 1e-6 * np.max(np.abs(cov)):
@@ -1147,7 +1158,7 @@ def lattice_ugla(ctx):
         bc = bcs[(i // 2) % 3]
         pat = fit_ugla_pattern(UGLA_PATTERNS[(i * 5 + i // len(UGLA_PATTERNS)) % len(UGLA_PATTERNS)], bc)
         out.append((i, ["exp", "legacy"][i % 2], ["matrix", "function"][(i // 2) % 2], bc, UGLA_LOCS[(i // 3) % 4],
-                    scales[(i // 4) % 4], [1.0, 0.25, 0.01][(i // 5) % 3], ["zero", "random"][(i // 6 + i) % 2],
+                    scales[(i // 4) % 4], [1.0, 0.25, 0.01][(i // 5) % 3], ["zero", "random", "huge"][(i // 6 + i) % 3],
                     NOISE_CELLS[(i * 3) % 16], pat))
     # 2-d LMRF priors (Image2D domain, function-pair model)
     for k in range(ctx.n(4, 24)):
@@ -1186,6 +1197,14 @@ def gen_ugla_spec(rng, cell):
     if lock == "vector" and len(set(loc)) == 1:
         loc[0] += 1.0
     xk = [0.0] * n if xkk == "zero" else rand_dyadic_vec(rng, n, 4, -3, 3)
+    if xkk == "huge":
+        # a current state several million times larger than the draw (kept below 2^38 after the unit scaling, see CGLS's
+        # absolute clause): the local Gaussian at such a state has negligible prior weights
+        ka = PATTERN_BY_NAME[patname][1]
+        if 36 - max(ka, 0) >= 23:
+            xk = [v * 2.0 ** 23 for v in rand_dyadic_vec(rng, n, 1, 1, 3)]
+        else:
+            xkk = "random"        # x-units so large that a 2^23 times larger state would trip CGLS's absolute clause: ordinary state
     spec = {"kind": "ugla", "iface": iface, "target": "posterior", "mkind": mkind, "n": n,
             "liks": [{"A": A, "b": [float(rng.randint(-5, 5)) for _ in range(m)], "noise": gen_gspec(rng, m, f, s)}],
             "prior": {"kind": "lmrf", "bc": bc, "loc": loc, "scale": scale, "two_d": two_d}, "beta": beta, "xcurs": [xk], "idx": i}
@@ -1198,7 +1217,8 @@ def gen_ugla_spec(rng, cell):
         g["decl"] = DECLS_2D[i % 10]
     elif g["shape"] == "vector":
         g["decl"] = DECLS_1D[i % 6]
-    spec["cell"] = cell_name(spec) + "%s/noise=%s-%s/units=%s" % ("/2d" if two_d else "", f, s, patname)
+    spec["xk_class"] = xkk
+    spec["cell"] = cell_name(spec) + "%s/xk=%s/noise=%s-%s/units=%s" % ("/2d" if two_d else "", xkk, f, s, patname)
     return apply_scale(spec, PATTERN_BY_NAME[patname])
 
 
@@ -1263,6 +1283,13 @@ def side_conditions(spec, obs, cases, cell):
         cases.append(Case(expr=cbool(ok), meta={"spec": spec, "stage": "operator"}, cell=cell, kind="DECISION",
                           impl_fail=None if ok else "the prior's difference / precision operator is not the documented finite-difference stencil",
                           signature="" if ok else signature_of(spec, "operator")))
+    pg = spec.get("prior", {})
+    if pg.get("kind") == "gmrf" and "Pop" in obs:
+        two_d = bool(pg.get("two_d"))
+        N = int(round(spec["n"] ** 0.5)) if two_d else spec["n"]
+        cases.append(Case(expr="check_gmrf_P %s %s %s %s %s" % (cnat(pg["order"]), cbool(two_d), {"zero": "BcZero", "neumann": "BcNeumann", "periodic": "BcPeriodic"}[pg["bc"]],
+                                                            cnat(N), qm(obs["Pop"])),
+                          meta={"spec": spec, "stage": "operator-model"}, cell=cell))
     bad = obs.get("inputs_modified") or []
     cases.append(Case(expr=cbool(not bad), meta={"spec": spec, "stage": "inputs"}, cell=cell, kind="DECISION",
                       impl_fail=None if not bad else "; ".join(bad[:3]), signature="" if not bad else signature_of(spec, "input-modified")))
@@ -1380,7 +1407,11 @@ def ugla_cases(spec, obs, fail, fixed):
     x0 = obs["draws"][0]["x"]
     xs = [obs["draws"][1 + i]["x"] for i in range(p)]
     law = "check_ugla_law_spec tol6 %s %s %s %s %s %s %s %s" % (raw, COQF[l["noise"]["form"]], c_gval(l["noise"]), qs(obs["c"]), qv(xk), qv(swd), qv(x0), qm(xs))
-    if fail and spec.get("Dloc_nonzero") and not fixed:
+    if spec.get("xk_class") == "huge":
+        # the read-off from a state millions of times larger than the draw is accurate only relative to that state: the model
+        # side certifies the transitions (normal equations relative to the initial residual); the law is the oracle's
+        add("law", "true", impl=bool(fail))
+    elif fail and spec.get("Dloc_nonzero") and not fixed:
         # inside the known defect class the documented law is expected to fail: the faithful model (UglaCode) is tied by
         # the precompute / draws stages; the law stage carries the oracle's verdict
         add("law", "negb (%s)" % law, impl=True)
@@ -1472,9 +1503,33 @@ def try_observe(cuqi, spec):
         return {"raised": "%s: %s" % (type(ex).__name__, ex), "trace": traceback.format_exc()[-1500:]}
 
 
+SIG_CHOL = "utilities.sparse_cholesky|SPD-matrix-refused:SuperLU-row-pivoting"
+
+
+def chol_witness(cuqi):
+    """fixed witness of the sparse_cholesky defect: an SPD precision (min eigenvalue 0.70) given as a scipy sparse matrix"""
+    import scipy.sparse as sps
+    P = np.array([[1.0, 1.0, 0.0, 0.0], [1.0, 5.0, 0.0, 2.0], [0.0, 0.0, 1.0, 0.0], [0.0, 2.0, 0.0, 5.0]])
+    try:
+        with quiet():
+            S = dense(cuqi.distribution.Gaussian(np.zeros(4), prec=sps.csc_matrix(P)).sqrtprec)
+        ok = bool(np.allclose(S.T @ S, P))
+        return (not ok, "Gaussian(zeros(4), prec=csc(P)) accepted, sqrtprec^T sqrtprec %s P" % ("==" if ok else "!="))
+    except TypeError as ex:
+        return (True, "Gaussian(zeros(4), prec=csc([[1,1,0,0],[1,5,0,2],[0,0,1,0],[0,2,0,5]])) raises TypeError(%s) although P is positive definite" % ex)
+
+
+def raised_signature(spec, obs):
+    gs = [l["noise"] for l in spec.get("liks", [])] + ([spec["prior"]["g"]] if spec.get("prior", {}).get("kind") == "gaussian" else [])
+    sparse_full = any(g.get("decl") in ("csr", "csc", "dia", "coo") and g["shape"] == "full" and g["form"] in ("cov", "prec") for g in gs)
+    if "not positive semi-definite" in obs["raised"] and sparse_full:
+        return SIG_CHOL            # every generated matrix is positive definite by construction (U^T U, U triangular with non-zero diagonal)
+    return signature_of(spec, "raises")
+
+
 def raised_case(spec, obs):
     return Case(expr="false", meta={"spec": spec, "stage": "raised", "raised": obs["raised"]}, cell=cell_name(spec),
-                impl_fail="valid configuration, but no draw: " + obs["raised"], signature=signature_of(spec, "raises"))
+                impl_fail="valid configuration, but no draw: " + obs["raised"], signature=raised_signature(spec, obs))
 
 
 def regularized_cases(cuqi, rng, ctx):
@@ -2026,6 +2081,7 @@ def known_witnesses(ctx):
     st = probe_ugla(cuqi)
     out = {SIG_UGLA[i]: ((not st[i][0]) or "raised" in st[i][3], st[i][1]) for i in ("exp", "legacy")}
     st2 = probe_flag2(cuqi)
+    out[SIG_CHOL] = chol_witness(cuqi)
     for i in ("exp", "legacy"):
         out[SIG_STALE[i]] = (st2[i] == "live", "witness history (A 4x3, noise cov [1,4,16,.25] re-assigned in place to [4,1,1,1]): flag 2 of the living "
                              "sampler %s" % ("follows the re-assignment while flag 1 and b_tild keep the captured sqrtprec" if st2[i] == "live"
